@@ -25,10 +25,14 @@ def feed {α} (st : LexSt α) : Raw α → Res (LexSt α)
   | .popen => .ok { st with res := st.res ++ [.popen], depth := st.depth + 1 }
   | .pclose =>
     let d := st.depth - 1
+    -- `unmatched_closing_paren`: the source depth has become negative
+    let dip := st.dipped || decide (d < 0)
     if st.owed.getLast? == some d then
-      .ok { res := st.res ++ [.pclose, .pclose], owed := st.owed.dropLast, depth := d }
-    else .ok { st with res := st.res ++ [.pclose], depth := d }
+      .ok { res := st.res ++ [.pclose, .pclose], owed := st.owed.dropLast, depth := d, dipped := dip }
+    else .ok { st with res := st.res ++ [.pclose], depth := d, dipped := dip }
   | .comma =>
+    -- a comma after an unmatched `)` is an error (the rewrite must not repair a paren mismatch)
+    if st.dipped then .error (.err "comma_after_unmatched_paren") else
     match findOpOfComma st.res with
     | none => .error (.err "comma")
     | some i =>
@@ -37,7 +41,7 @@ def feed {α} (st : LexSt α) : Raw α → Res (LexSt α)
       | some opTok =>
         if st.owed.getLast? == some (st.depth - 1) then .error (.err "second_comma") else
         .ok { res := st.res.set i .popen ++ [.pclose, opTok, .popen],
-              owed := st.owed ++ [st.depth - 1], depth := st.depth }
+              owed := st.owed ++ [st.depth - 1], depth := st.depth, dipped := st.dipped }
   | .tok tk => .ok { st with res := st.res ++ [tk] }
 
 def feedAll {α} : List (Raw α) → LexSt α → Res (LexSt α)
@@ -61,6 +65,10 @@ theorem lexStep_comma {α} (I : Interp α) (t : Table) (lm : Str → Option Nat)
   have h1 : (',' == '(') = false := by decide
   have h2 : (',' == ')') = false := by decide
   simp only [lexStep, feed, h1, h2, beq_self_eq_true, if_true, Bool.false_eq_true, if_false]
+  cases st.dipped with
+  | true => rfl
+  | false =>
+  simp only [Bool.false_eq_true, if_false]
   generalize findOpOfComma st.res = r
   cases r with
   | none => rfl
@@ -107,53 +115,63 @@ theorem feedAll_cons_ok {α} {x : Raw α} {st st' : LexSt α} (xs : List (Raw α
     (h : feed st x = .ok st') : feedAll (x :: xs) st = feedAll xs st' := by
   simp only [feedAll, h]
 
-theorem feed_tok {α} (res : List (Tok α)) (owed : List Int) (depth : Int) (tk : Tok α) :
-    feed ⟨res, owed, depth⟩ (.tok tk) = .ok ⟨res ++ [tk], owed, depth⟩ := rfl
+theorem feed_tok {α} (res : List (Tok α)) (owed : List Int) (depth : Int) (dp : Bool) (tk : Tok α) :
+    feed ⟨res, owed, depth, dp⟩ (.tok tk) = .ok ⟨res ++ [tk], owed, depth, dp⟩ := rfl
 
-theorem feed_open {α} (res : List (Tok α)) (owed : List Int) (depth : Int) :
-    feed ⟨res, owed, depth⟩ .popen = .ok ⟨res ++ [.popen], owed, depth + 1⟩ := rfl
+theorem feed_open {α} (res : List (Tok α)) (owed : List Int) (depth : Int) (dp : Bool) :
+    feed ⟨res, owed, depth, dp⟩ .popen = .ok ⟨res ++ [.popen], owed, depth + 1, dp⟩ := rfl
 
-/-- a `)` that closes an ordinary `(` -/
-theorem feed_close_plain {α} (res : List (Tok α)) (owed : List Int) (depth : Int)
-    (h : ∀ d ∈ owed, d < depth) :
-    feed ⟨res, owed, depth + 1⟩ .pclose = .ok ⟨res ++ [.pclose], owed, depth⟩ := by
+/-- a `)` that closes an ordinary `(` (back to a non-negative depth: the flag is unchanged) -/
+theorem feed_close_plain {α} (res : List (Tok α)) (owed : List Int) (depth : Int) (dp : Bool)
+    (h : ∀ d ∈ owed, d < depth) (hd : 0 ≤ depth) :
+    feed ⟨res, owed, depth + 1, dp⟩ .pclose = .ok ⟨res ++ [.pclose], owed, depth, dp⟩ := by
   have e : depth + 1 - 1 = depth := by omega
-  simp only [feed, e, CallTokens.getLast?_ne h]
+  have hn : decide (depth < 0) = false := by simpa using hd
+  simp only [feed, e, CallTokens.getLast?_ne h, hn]
   simp
 
 /-- a `)` that closes the `(` of a call: two closing parentheses, the owed entry is popped -/
-theorem feed_close_owed {α} (res : List (Tok α)) (owed : List Int) (depth : Int) :
-    feed ⟨res, owed ++ [depth], depth + 1⟩ .pclose = .ok ⟨res ++ [.pclose, .pclose], owed, depth⟩ := by
+theorem feed_close_owed {α} (res : List (Tok α)) (owed : List Int) (depth : Int) (dp : Bool)
+    (hd : 0 ≤ depth) :
+    feed ⟨res, owed ++ [depth], depth + 1, dp⟩ .pclose
+      = .ok ⟨res ++ [.pclose, .pclose], owed, depth, dp⟩ := by
   have e : depth + 1 - 1 = depth := by omega
-  simp [feed, e]
+  have hn : decide (depth < 0) = false := by simpa using hd
+  simp [feed, e, hn]
 
-/-- the `,` of `op ( a , …`: `op` is replaced by `(`, `) op (` is appended, one `)` is owed -/
+/-- the `,` of `op ( a , …` when no unmatched `)` has been seen: `op` is replaced by `(`,
+    `) op (` is appended, one `)` is owed -/
 theorem feed_comma_call {α} (pre ta : List (Tok α)) (o : Nat) (owed : List Int) (depth : Int)
     (hta : CallTokens.Skip ta) (h : ∀ d ∈ owed, d < depth) :
-    feed ⟨pre ++ [.op o, .popen] ++ ta, owed, depth + 1⟩ .comma
-      = .ok ⟨pre ++ [.popen, .popen] ++ ta ++ [.pclose, .op o, .popen], owed ++ [depth], depth + 1⟩ := by
+    feed ⟨pre ++ [.op o, .popen] ++ ta, owed, depth + 1, false⟩ .comma
+      = .ok ⟨pre ++ [.popen, .popen] ++ ta ++ [.pclose, .op o, .popen], owed ++ [depth], depth + 1, false⟩ := by
   have e : depth + 1 - 1 = depth := by omega
   simp only [feed, CallTokens.findOpOfComma_call pre ta o hta, CallTokens.getElem?_call,
     CallTokens.set_call, e, CallTokens.getLast?_ne h]
   simp
 
+/-- after an unmatched `)` a comma is rejected, whatever the tokens so far -/
+theorem feed_comma_dipped {α} (st : LexSt α) (h : st.dipped = true) :
+    feed st .comma = .error (.err "comma_after_unmatched_paren") := by
+  simp [feed, h]
+
 mutual
 theorem atom_tokens {α} (I : Interp α) : (a : Atom α) → (res : List (Tok α)) → (owed : List Int) →
-    (depth : Int) → (∀ d ∈ owed, d < depth) →
-    feedAll (rawAtom I a) ⟨res, owed, depth⟩ = .ok ⟨res ++ a.toks I, owed, depth⟩
-  | .lit _ v, res, owed, depth, _ => by simp [rawAtom, Atom.toks, feedAll, feed]
-  | .var x _, res, owed, depth, _ => by simp [rawAtom, Atom.toks, feedAll, feed]
-  | .const k, res, owed, depth, _ => by simp [rawAtom, Atom.toks, feedAll, feed]
-  | .par c, res, owed, depth, h => by
+    (depth : Int) → (∀ d ∈ owed, d < depth) → 0 ≤ depth →
+    feedAll (rawAtom I a) ⟨res, owed, depth, false⟩ = .ok ⟨res ++ a.toks I, owed, depth, false⟩
+  | .lit _ v, res, owed, depth, _, _ => by simp [rawAtom, Atom.toks, feedAll, feed]
+  | .var x _, res, owed, depth, _, _ => by simp [rawAtom, Atom.toks, feedAll, feed]
+  | .const k, res, owed, depth, _, _ => by simp [rawAtom, Atom.toks, feedAll, feed]
+  | .par c, res, owed, depth, h, hd => by
     have ih := chain_tokens I c (res ++ [.popen]) owed (depth + 1)
-      (fun d hd => by have := h d hd; omega)
+      (fun d hd => by have := h d hd; omega) (by omega)
     have e : rawAtom I (.par c) = .popen :: (rawChain I c ++ [.pclose]) := by simp [rawAtom]
     rw [e, feedAll_cons_ok _ (feed_open ..), feedAll_append_ok _ ih,
-      feedAll_cons_ok _ (feed_close_plain _ _ _ h)]
+      feedAll_cons_ok _ (feed_close_plain _ _ _ _ h hd)]
     simp [feedAll, Atom.toks]
-  | .call o a b, res, owed, depth, h => by
+  | .call o a b, res, owed, depth, h, hd => by
     have iha := chain_tokens I a (res ++ [.op o] ++ [.popen]) owed (depth + 1)
-      (fun d hd => by have := h d hd; omega)
+      (fun d hd => by have := h d hd; omega) (by omega)
     have ea : res ++ [Tok.op o] ++ [Tok.popen] ++ a.toks I
         = res ++ [Tok.op o, Tok.popen] ++ a.toks I := by simp
     rw [ea] at iha
@@ -162,47 +180,56 @@ theorem atom_tokens {α} (I : Interp α) : (a : Atom α) → (res : List (Tok α
       (fun d hd => by
         rcases List.mem_append.1 hd with hd | hd
         · have := h d hd; omega
-        · simp at hd; omega)
+        · simp at hd; omega) (by omega)
     have e : rawAtom I (.call o a b)
         = .tok (.op o) :: .popen :: (rawChain I a ++ (.comma :: (rawChain I b ++ [.pclose]))) := by
       simp [rawAtom]
     rw [e, feedAll_cons_ok _ (feed_tok ..), feedAll_cons_ok _ (feed_open ..),
       feedAll_append_ok _ iha,
       feedAll_cons_ok _ (feed_comma_call _ _ _ _ _ (CallTokens.chain_skip I a) h),
-      feedAll_append_ok _ ihb, feedAll_cons_ok _ (feed_close_owed ..)]
+      feedAll_append_ok _ ihb, feedAll_cons_ok _ (feed_close_owed _ _ _ _ hd)]
     simp [feedAll, Atom.toks]
-  | .un u a, res, owed, depth, h => by
-    have ih := atom_tokens I a (res ++ [.op u]) owed depth h
+  | .un u a, res, owed, depth, h, hd => by
+    have ih := atom_tokens I a (res ++ [.op u]) owed depth h hd
     have e : rawAtom I (.un u a) = .tok (.op u) :: rawAtom I a := by simp [rawAtom]
     rw [e, feedAll_cons_ok _ (feed_tok ..), ih]
     simp [Atom.toks]
 theorem chain_tokens {α} (I : Interp α) : (c : Chain α) → (res : List (Tok α)) → (owed : List Int) →
-    (depth : Int) → (∀ d ∈ owed, d < depth) →
-    feedAll (rawChain I c) ⟨res, owed, depth⟩ = .ok ⟨res ++ c.toks I, owed, depth⟩
-  | .single a, res, owed, depth, h => by
-    simpa [rawChain, Chain.toks] using atom_tokens I a res owed depth h
-  | .cons a o rest, res, owed, depth, h => by
-    have iha := atom_tokens I a res owed depth h
-    have ihr := chain_tokens I rest (res ++ a.toks I ++ [.op o]) owed depth h
+    (depth : Int) → (∀ d ∈ owed, d < depth) → 0 ≤ depth →
+    feedAll (rawChain I c) ⟨res, owed, depth, false⟩ = .ok ⟨res ++ c.toks I, owed, depth, false⟩
+  | .single a, res, owed, depth, h, hd => by
+    simpa [rawChain, Chain.toks] using atom_tokens I a res owed depth h hd
+  | .cons a o rest, res, owed, depth, h, hd => by
+    have iha := atom_tokens I a res owed depth h hd
+    have ihr := chain_tokens I rest (res ++ a.toks I ++ [.op o]) owed depth h hd
     have e : rawChain I (.cons a o rest) = rawAtom I a ++ (.tok (.op o) :: rawChain I rest) := by
       simp [rawChain]
     rw [e, feedAll_append_ok _ iha, feedAll_cons_ok _ (feed_tok ..), ihr]
     simp [Chain.toks]
 end
 
-/-- **C08.** Call notation at any nesting produces the tokens of `((a) op (b))`; depth and owed
-    stack are restored. The only requirement on the start state is that no closing parenthesis is
-    owed at the current depth or deeper (true at the start of a text and, inductively, inside). -/
+/-- **C08.** Call notation at any nesting produces the tokens of `((a) op (b))`; depth, owed
+    stack and the unmatched-`)` flag are restored. The requirements on the start state: no closing
+    parenthesis is owed at the current depth or deeper, the source depth is not negative and no
+    unmatched `)` has been seen (all true at the start of a text and, inductively, inside a
+    well-formed expression; after an unmatched `)` every comma is rejected, `feed_comma_dipped`). -/
 theorem call_tokens {α} (I : Interp α) (c : Chain α) (st : LexSt α)
-    (hst : ∀ d ∈ st.owed, d < st.depth) :
+    (hst : ∀ d ∈ st.owed, d < st.depth) (hdepth : 0 ≤ st.depth) (hdip : st.dipped = false) :
     feedAll (rawChain I c) st = .ok { st with res := st.res ++ c.toks I } := by
-  obtain ⟨res, owed, depth⟩ := st
-  exact chain_tokens I c res owed depth hst
+  obtain ⟨res, owed, depth, dp⟩ := st
+  cases hdip
+  exact chain_tokens I c res owed depth hst hdepth
+
+/-- in particular the unmatched-`)` flag is still unset afterwards -/
+theorem call_tokens_dipped {α} (I : Interp α) (c : Chain α) (st : LexSt α)
+    (hst : ∀ d ∈ st.owed, d < st.depth) (hdepth : 0 ≤ st.depth) (hdip : st.dipped = false) :
+    ∃ st', feedAll (rawChain I c) st = .ok st' ∧ st'.dipped = false ∧ st'.depth = st.depth :=
+  ⟨_, call_tokens I c st hst hdepth hdip, hdip, rfl⟩
 
 /-- from the initial state: the token stream is exactly the canonical one -/
 theorem call_tokens_init {α} (I : Interp α) (c : Chain α) :
     feedAll (rawChain I c) ({} : LexSt α) = .ok { res := c.toks I, owed := [], depth := 0 } := by
-  have := call_tokens I c ({} : LexSt α) (by simp)
+  have := call_tokens I c ({} : LexSt α) (by simp) (by simp) rfl
   simpa using this
 
 /-! ### non-vacuity: `max(1, min(2, 3))` — a call nested in the second argument of a call -/
